@@ -35,8 +35,8 @@ TRUSTED = [
 	'Headers.append / pop and the element parsing of the Trailer field are the models of C08/C09 (tied there); zlib content codings are excluded (the property speaks of messages without a content coding)',
 ]
 ASSUMPTIONS = ['F6: an HTTP/1.0 message carrying Transfer-Encoding: chunked is framed by Content-Length and delivered still advertising chunked (recorded finding)', 'a status raised by parse() ends the history: the state machine is not fed again after an error (DESIGN.md 6.2)']
-RULE = ('fed in one call, in halves, octet by octet and line by line (cut after each CRLF, and one octet into the next line); the full matrix Content-Length in {absent, correct, too small, too large, repeated, signed, non-numeric, spaced} x Transfer-Encoding in {absent, chunked in any letter case, unknown, list} x HTTP/1.0, 1.1 '
-	'x trailer sections with announced, unannounced, forbidden and repeated fields, for requests and responses, small bodies exhaustively; non-trivial = delivered; distinct by canonical outcome')
+RULE = ('fed in one call, in halves, octet by octet and line by line (cut after each CRLF, and one octet into the next line); the full matrix Content-Length in {absent, correct, too small, too large, repeated, signed, non-numeric, spaced, with parameters, quoted, as a list} x Transfer-Encoding in {absent, chunked in any letter case, unknown, list} x HTTP/1.0, 1.1 '
+	'x trailer sections with announced, unannounced, forbidden and repeated fields, for requests and responses, small bodies exhaustively, alone or after another (Content-Length or chunked) message on the same state machine; non-trivial = delivered; distinct by canonical outcome')
 
 
 def build(side, version, cl, te, body, trailer_hdr, trailers):
@@ -63,7 +63,7 @@ def cases(rng, tier):
 		for version in (b'1.1', b'1.0'):
 			for body in bodies:
 				n = len(b''.join(body))
-				cls = [(), (b'%d' % n,), (b'%d' % max(n - 1, 0),), (b'%d' % (n + 3),), (b'%d' % n, b'%d' % n), (b'%d' % n, b'%d' % (n + 1)), (b'+%d' % n,), (b'-1',), (b'abc',), (b' %d ' % n,), (b'0%d' % n,), (b'%d\xa0' % n,), (b'1_0',), (b'',)]
+				cls = [(), (b'%d' % n,), (b'%d' % max(n - 1, 0),), (b'%d' % (n + 3),), (b'%d' % n, b'%d' % n), (b'%d' % n, b'%d' % (n + 1)), (b'+%d' % n,), (b'-1',), (b'abc',), (b' %d ' % n,), (b'0%d' % n,), (b'%d\xa0' % n,), (b'1_0',), (b'',), (b'%d;x=1' % n,), (b'%d;' % n,), (b'%d ; q=1' % n,), (b'%d, %d' % (n, n),), (b'"%d"' % n,), (b'%d.0' % n,), (b'0x%x' % n,)]
 				tes = [None, b'chunked', b'Chunked', b'CHUNKED', b'gzip', b'gzip, chunked', b'identity', b'chunked ', b'x-unknown']
 				trs = [(None, ()), (b'X-T', ((b'X-T', b'v'),)), (b'X-T', ()), (None, ((b'X-T', b'v'),)), (b'X-T', ((b'X-T', b'v'), (b'X-U', b'w'))),
 					(b'Content-Length', ((b'Content-Length', b'99'),)), (b'X-T', ((b'Content-Length', b'99'),)), (b'transfer-encoding', ((b'Transfer-Encoding', b'chunked'),)),
@@ -73,7 +73,8 @@ def cases(rng, tier):
 						for th, tr in (trs if te else trs[:1]):
 							if tier == 'quick' and rng.random() > 0.35:
 								continue
-							yield ('m', side, version, cl, te, body, th, tr, rng.choice((0, 1, 2, 3, 4, 5)))
+							# mode: how the stream is cut (0-5), plus 10 / 20 when another message precedes this one on the same state machine
+							yield ('m', side, version, cl, te, body, th, tr, rng.choice((0, 1, 2, 3, 4, 5)) + rng.choice((0, 0, 10, 20)))
 
 
 def search(rng, res):
@@ -84,13 +85,18 @@ def stream(case):
 	_, side, version, cl, te, body, th, tr, mode = case
 	head, plain, chunked = build(side, version, cl, te, body, th, tr)
 	payload = chunked if te is not None and b'chunked' in te.lower() else plain
-	if mode == 2 and te is None:
+	if mode % 10 == 2 and te is None:
 		payload = chunked      # a chunked-looking body sent without announcing it
-	return head + payload, plain
+	pre = b''
+	if mode // 10 == 1:
+		pre = (b'POST /first HTTP/1.1\r\nHost: h\r\nContent-Length: 3\r\n\r\nabc' if side == 'server' else b'HTTP/1.1 200 OK\r\nContent-Length: 3\r\n\r\nabc')
+	elif mode // 10 == 2:
+		pre = (b'POST /first HTTP/1.1\r\nHost: h\r\nTransfer-Encoding: chunked\r\n\r\n3\r\nabc\r\n0\r\n\r\n' if side == 'server' else b'HTTP/1.1 200 OK\r\nTransfer-Encoding: chunked\r\n\r\n3\r\nabc\r\n0\r\n\r\n')
+	return pre + head + payload, plain
 
 
 def frags(case, s):
-	mode = case[-1]
+	mode = case[-1] % 10
 	if mode == 0:
 		return [s]
 	if mode in (1, 2):
@@ -173,7 +179,7 @@ def oracle(case):
 	# an unannounced or forbidden trailer field must make the message fail with 400
 	if te is not None and te.strip().lower() == b'chunked' and version == b'1.1' and tr and not err:
 		names = [n.lower() for n, v in tr]
-		if any(n not in announced or n in FORBIDDEN for n in names) and len(delivered) >= 1 and cl_ok(cl):
+		if any(n not in announced or n in FORBIDDEN for n in names) and len(delivered) >= 1 + (1 if mode // 10 else 0) and cl_ok(cl):
 			return {'what': 'message with an unannounced / forbidden trailer field was delivered', 'stream': s.hex(), 'finding': None}
 	return None
 
